@@ -8,6 +8,9 @@ import NeoModel.Proofs.PersistReset
 import NeoModel.Proofs.PersistEqSync
 import NeoModel.Proofs.PersistJump
 import NeoModel.Proofs.PersistResetMulti
+import NeoModel.Proofs.PersistGC
+import NeoModel.Proofs.PersistBlk
+import NeoModel.Proofs.PersistFlush
 import NeoModel.Generated.Stages
 namespace NeoModel.Persist
 
@@ -209,15 +212,17 @@ theorem reset_resumable_of_consistent_node (H : Hist) {B S : Nat} (hB : 1 < B) (
       recover H B S d5 = .ok n' ∧ recover H B S d6 = .ok n' :=
   reset_resumable_of_inv H hB n n' hn hc t bs hreset hbs
 
-/-- **reset_resumable** — the full statement. For the stopped node `n` of ANY GC-free schedule (empty write cache),
-every target `t` and every batch size `S`: the batches of `reset n t` are
-`b1 :: b2 ++ [c3, c4, c5, c6, stageDone]` (sync point + first marker; the block-removal stage, `b2`, as many
-batches as `S` requires; storage copy; header reset; MPT/transfer reset; SeekGC; marker removal) and the database
+/-- **reset_resumable** — the full statement. For the stopped node `n` of ANY schedule — header additions, blocks,
+flushes AND transfer/MPT GC commits — with an empty write cache, every target `t` and every batch size `S`: the batches
+of `reset n t` are `b1 :: b2 ++ [c3, c4, c5, c6, stageDone]` (sync point + first marker; the block-removal stage, `b2`,
+as many batches as `S` requires; storage copy; header reset; MPT/transfer reset; SeekGC; marker removal) and the database
 after EVERY prefix of that list reopens to exactly the node `n'` of the uninterrupted reset:
 after `b1` and after any number of intermediate batches of the block removal (`∀ j < b2.length`, `j = 0` is the
 database right after `b1`), after each complete stage (`d2 … d6`), and after the last batch (`n'.db`).
+The consistency the proof needs of `n` (`Inv`, and `BInv`: a block record at every height up to its own) is an
+invariant of every reachable node, GC commits included; no hypothesis on the schedule is left.
 (Old DESIGN §6 item 7 — the multi-batch removal was not idempotent — is settled positively by the kept headers.) -/
-theorem reset_resumable (H : Hist) {B S : Nat} (hB : 1 < B) (ops : List Op) (hno : ∀ o ∈ ops, o.isGc = false)
+theorem reset_resumable (H : Hist) {B S : Nat} (hB : 1 < B) (ops : List Op)
     (hc : (run H B ops).1.cache = []) (t : Nat) (bs : List Batch) (n' : Node)
     (hreset : reset H B S (run H B ops).1 t = .ok (bs, n')) (hbs : bs ≠ []) :
     let n := (run H B ops).1
@@ -240,9 +245,10 @@ theorem reset_resumable (H : Hist) {B S : Nat} (hB : 1 < B) (ops : List Op) (hno
       recover H B S n'.db = .ok n' := by
   intro n b1 d1
   have hi := inv_runFrom hB (inv_fresh H hB) ops
-  have hf := finv_runFrom hB (inv_fresh H hB) (finv_fresh H) ops hno
-  obtain ⟨b2, d2, x, r, p0, hsb, hd2, hbs', hdb, _, r2, r3, r4, r5, r6⟩ := reset_resumable_all_stages H hB n n' hi hf hc t bs hreset hbs
-  obtain ⟨b2', d2', hsb', hin⟩ := reset_resumable_inside_block_removal H n n' hi hf hc t bs hreset hbs d1 rfl
+  have hb : ∀ i, i ≤ n.height → ∃ y, n.view (Key.exec i) = some (Val.blk y) :=
+    fun i h => ⟨i, binv_runFrom hB (inv_fresh H hB) (binv_fresh H) ops i h⟩
+  obtain ⟨b2, d2, x, r, p0, hsb, hd2, hbs', hdb, _, r2, r3, r4, r5, r6⟩ := reset_resumable_all_stages H hB n n' hi hb hc t bs hreset hbs
+  obtain ⟨b2', d2', hsb', hin⟩ := reset_resumable_inside_block_removal H n n' hi hb hc t bs hreset hbs d1 rfl
   have e : b2' = b2 := by
     have := hsb'.symm.trans hsb
     simp at this; exact this.1
@@ -258,6 +264,11 @@ example : ∃ bs n', reset Hw 2000 200000 (nodeAt 2000 2) 1 = .ok (bs, n') ∧ b
     have : (resetBatches 2000 200000 2 1).length = 7 := reset_has_seven_batches
     intro e
     simp [resetBatches, h, e] at this
+
+/-- non-vacuity with a GC commit in the schedule: three blocks, a flush, an MPT/transfer GC commit with target 1,
+then the reset to height 2 (above the GC target) runs its 7 batches. -/
+example : (match reset Hw 2000 200000 (run Hw 2000 [.block, .block, .block, .flush, .gc 1 (fun _ v => v)]).1 2 with
+    | .ok (bs, _) => decide (bs.length = 7) | .error _ => false) = true := by decide
 
 /-- every stage of the reset is idempotent from its own marker: from the database after any complete stage,
 `resetFrom` with that stage's marker issues exactly the remaining batches and ends in the same database `D`. -/
@@ -379,6 +390,197 @@ theorem jump_short_chain_example :
     (match recover Hj 2000 200000 (syncedNode Hj 2000 8 9).db with | .ok m => decide (m.height = 0) | .error _ => false) = true := by
   decide
 
+
+/-! ## 4. garbage collection of blocks and header-hash pages; a flush inside AddBlock (Model/PersistGC.lean)
+
+A timer tick of a RemoveUntraceableBlocks node is `flush` followed by `tryRunGC`: transfer/MPT SeekGC commits
+directly on the backend, removal of untraceable blocks INTO THE WRITE CACHE (it reaches the backend with the next
+flush batch), SeekGC of old header-hash pages directly on the backend (since fix 2cd5b80 never the page
+HeaderHashes.init reads at restart). `GOp` schedules interleave these runs and `blockWait` steps (an AddBlock whose
+storeBlock waits at the persist back-pressure while the persisting routine flushes) with every step of section 1;
+`GInv` is the node invariant with GC floors (records from a block floor on, pages from a page floor on, both floors
+below what HeaderHashes.init reads at restart). -/
+
+/-- **crash_prefix_consistent_gc** — `crash_prefix_consistent` for the whole schedule language. For every chain
+content, every configuration (any positive MaxTraceableBlocks, any GarbageCollectionPeriod), every schedule of
+header/block/flush steps, transfer/MPT GC commits, whole tryRunGC runs (with any previous persisted height) and
+AddBlocks with a flush during their back-pressure wait, and every prefix `k` of the list of atomic batches — including
+the point between the two direct commits of one GC run, the flush that carries the block deletions and the flush that
+happens while a block waits — reopening succeeds, the recovered node satisfies `GInv` (tip pointers, state roots of all
+heights up to its own, storage snapshot, header records and pages above the GC floors), is not above the running
+node and has `items = itemsAt H height`. -/
+theorem crash_prefix_consistent_gc (H : Hist) {B : Nat} (S : Nat) (cfg : GcCfg) (hB : 1 < B) (hm : 0 < cfg.mtb)
+    (ops : List GOp) (k : Nat) (hk : k ≤ (grun H B cfg ops).2.length) :
+    ∃ n' fb fp, recover H B S (foldBatches ((grun H B cfg ops).2.take k) Db.empty) = .ok n' ∧
+      GInv H B fb fp n' ∧ n'.height ≤ (grun H B cfg ops).1.n.height ∧
+      n'.items = itemsAt H n'.height ∧ n'.hdrHeight ≥ n'.height := by
+  have h := gprefix_ok cfg hB hm (gstate_fresh H hB) ops k hk
+  rcases h with he | ⟨m, fb, fp, m1, m2, m3, m4, _⟩
+  · have he' : foldBatches ((grun H B cfg ops).2.take k) Db.empty = Db.empty := he
+    rw [he']
+    exact ⟨fresh H, 0, 0, recover_empty H B S, ginv_of_inv (inv_fresh H hB), Nat.zero_le _, rfl, Nat.le_refl _⟩
+  · have hm1 : m.db = foldBatches ((grun H B cfg ops).2.take k) Db.empty := m1
+    rw [← hm1]
+    exact ⟨m, fb, fp, recover_of_ginv m3 m2, m3, m4, m3.it, m3.le⟩
+
+/-- chain content of the GC witnesses. -/
+def Hgc : Hist :=
+  { ntx := fun _ => 1, confl := fun _ => [], eff := fun h => [(h % 2, some h)], touched := fun _ => [0], hashOf := fun it => it.length }
+
+/-- non-vacuity (B = 2, MaxTraceableBlocks = 1, GCP = 1): eight blocks, a flush, one GC run (target 7: blocks 0..5
+go to the write cache, pages 0..4 are dropped from the backend, page 6 - the one below the stored header count 8 -
+stays), a block that waits while a flush happens, one more flush: 5 batches, every prefix reopens; the flush during
+the wait carries the deletions and header 9 but not block 9 (the tip pointer on disk stays at 8). -/
+def gcGood : List GOp :=
+  [.base .block, .base .block, .base .block, .base .block, .base .block, .base .block, .base .block, .base .block, .base .flush,
+   .gcRun 0 (fun _ v => v), .blockWait, .base .flush]
+
+example : (grun Hgc 2 ⟨1, 1⟩ gcGood).2.length = 5 ∧
+    (∀ k ∈ [0, 1, 2, 3, 4, 5], errOf (recover Hgc 2 1 (foldBatches ((grun Hgc 2 ⟨1, 1⟩ gcGood).2.take k) Db.empty)) = none) ∧
+    foldBatches ((grun Hgc 2 ⟨1, 1⟩ gcGood).2.take 4) Db.empty Key.curBlock = some (Val.ptr 8) ∧
+    foldBatches ((grun Hgc 2 ⟨1, 1⟩ gcGood).2.take 4) Db.empty (Key.exec 9) = some (Val.hdr 9) ∧
+    foldBatches ((grun Hgc 2 ⟨1, 1⟩ gcGood).2.take 4) Db.empty (Key.exec 3) = none ∧
+    (grun Hgc 2 ⟨1, 1⟩ gcGood).1.n.db (Key.exec 9) = some (Val.blk 9) ∧
+    (grun Hgc 2 ⟨1, 1⟩ gcGood).1.n.db (Key.page 4) = none ∧ (grun Hgc 2 ⟨1, 1⟩ gcGood).1.n.db (Key.page 6) = some Val.pagev := by
+  decide
+
+/-- **continue_same_roots_gc**: from any node satisfying `GInv` with an empty write cache (every recovered one) and
+any further schedule including GC runs and blocks that wait during a flush, the state root stored for every height
+reached is the canonical one. -/
+theorem continue_same_roots_gc (H : Hist) {B : Nat} (cfg : GcCfg) (hB : 1 < B) (hm : 0 < cfg.mtb) (g : GNode) (fb fp : Nat)
+    (hn : GInv H B fb fp g.n) (hc : g.n.cache = []) (ops' : List GOp) (i : Nat)
+    (hi : i ≤ (grunFrom H B cfg g ops').1.n.height) :
+    (grunFrom H B cfg g ops').1.n.view (Key.root i) = some (Val.rootv (H.hashOf (itemsAt H i))) := by
+  obtain ⟨_, _, h⟩ := (gstate_grunFrom cfg hB hm (gstate_of_ginv hn hc) ops').run
+  exact h.rt i hi
+
+/-- **gc_run_crash_safe** (`gc_crash_safe` for a whole tryRunGC): on a consistent stopped-at-a-flush node
+(`GInv`, empty write cache) the backend after EVERY prefix of the direct commits of one GC run — none, the
+transfer/MPT commit, the header-hash page commit — reopens to a consistent node at the same height (the block
+deletions of the run are still in the write cache and are simply lost). -/
+theorem gc_run_crash_safe (H : Hist) {B : Nat} (S : Nat) (cfg : GcCfg) (hB : 1 < B) (hm : 0 < cfg.mtb) (g : GNode) (fb fp : Nat)
+    (hn : GInv H B fb fp g.n) (hc : g.n.cache = []) (old : Nat) (gx : Nat → Option Val → Option Val)
+    (k : Nat) (hk : k ≤ (gcRun H B cfg g old gx).2.length) :
+    ∃ n' fb' fp', recover H B S (foldBatches ((gcRun H B cfg g old gx).2.take k) g.n.db) = .ok n' ∧ GInv H B fb' fp' n' ∧
+      n'.height = g.n.height := by
+  obtain ⟨_, _, _, _, h5⟩ := gstep_gcRun_ok cfg hB hm (gstate_of_ginv hn hc) old gx
+  have hv : g.n.view = g.n.db := by simp [Node.view, hc, applyWrites]
+  have hcb : foldBatches ((gcRun H B cfg g old gx).2.take k) g.n.db Key.curBlock = some (Val.ptr g.n.height) := by
+    rw [foldBatches_fixes]
+    · have := hn.cb; rwa [hv] at this
+    · intro b hb w hw
+      have hb' := List.mem_of_mem_take hb
+      unfold gcRun at hb'
+      split at hb'
+      · split at hb'
+        · simp at hb'
+        · simp only at hb'
+          split at hb'
+          · split at hb'
+            · simp at hb'
+              rcases hb' with rfl | rfl <;> (simp at hw; subst hw; intro db; simp [gcSel, dropPages])
+            · simp at hb'
+              subst hb'; simp at hw; subst hw; intro db; simp [gcSel]
+          · simp at hb'
+      · simp at hb'
+  rcases h5 k hk with he | ⟨m, fb', fp', m1, m2, m3, _, _⟩
+  · rw [he] at hcb; simp [Db.empty] at hcb
+  · refine ⟨m, fb', fp', by rw [← m1]; exact recover_of_ginv m3 m2, m3, ?_⟩
+    have hmv : m.view = m.db := by simp [Node.view, m2, applyWrites]
+    have := m3.cb
+    rw [hmv, m1, hcb] at this
+    simp at this
+    exact this.symm
+
+/-- non-vacuity: the stopped node after eight blocks, one GC run with two direct commits. -/
+example : ((gcRun Hgc 2 ⟨1, 1⟩ { n := (run Hgc 2 [.block, .block, .block, .block, .block, .block, .block, .block, .flush]).1 } 0 (fun _ v => v)).2.length = 2) := by
+  decide
+
+/-- **flush_during_wait_atomic** — "everything a block changes reaches the database in one batch". The batch a flush
+writes while AddBlock of block `h = n.height + 1` waits at the persist back-pressure is exactly the write cache as it
+was before the AddBlock plus the header writes addHeaders issued for `h` when its header was new (`waitHeaderWrites`:
+header records, a completed page, SYSCurrentHeader); none of these is a write of the block itself (`BlockKey`: block
+record, transactions, conflict records, contract storage, transfer logs, MPT nodes, state root, tip pointer); and nothing
+is lost or reordered: the block that waited, once flushed, leaves exactly the node the same block leaves after its
+flush when no flush came in between. -/
+theorem flush_during_wait_atomic (H : Hist) (B : Nat) (n : Node) (hle : n.height ≤ n.hdrHeight) :
+    (blockWait H B n).2 = (if (n.cache ++ waitHeaderWrites B n).isEmpty then none else some (ofWrites (n.cache ++ waitHeaderWrites B n))) ∧
+    (∀ p ∈ waitHeaderWrites B n, ¬ BlockKey n.pfx (n.height + 1) p) ∧
+    (step H B (blockWait H B n).1 .flush).1 = (step H B (step H B n .block).1 .flush).1 :=
+  ⟨blockWait_batch H B n, waitHeaderWrites_not_block B n, blockWait_then_flush H B n hle⟩
+
+/-- non-vacuity: two blocks in the cache, the third waits: one batch, on disk the tip is 2 and record 3 is a header. -/
+example : (match (blockWait Hgc 2 (run Hgc 2 [.block, .block]).1).2 with
+    | some b => decide (applyBatch b Db.empty Key.curBlock = some (Val.ptr 2)) && decide (applyBatch b Db.empty (Key.exec 3) = some (Val.hdr 3))
+    | none => false) = true := by decide
+
+/-- **regression example for fix 2cd5b80** (the rule removeOldHeaderHashes had before: `gcRunOld`, pages up to
+((tgt+1)/B - 1)*B whatever the persisted header height). B = 2, MaxTraceableBlocks = 1, GCP = 1, four blocks and a
+flush, one GC run with target 3: the old rule dropped pages 0 and 2, but the stored header count at header height 4
+is 4 and HeaderHashes.init reads page 2 - the database after the page commit did not reopen (`noPage` = "failed to
+retrieve header hash page"); the rule of the code as it is now drops nothing there and every prefix reopens. -/
+def gcWitnessNode : Node := (run Hgc 2 [.block, .block, .block, .block, .flush]).1
+
+theorem gc_removes_needed_header_page :
+    (gcRunOld Hgc 2 ⟨1, 1⟩ { n := gcWitnessNode } 0 (fun _ v => v)).2.length = 2 ∧
+    errOf (recover Hgc 2 1 (foldBatches ((gcRunOld Hgc 2 ⟨1, 1⟩ { n := gcWitnessNode } 0 (fun _ v => v)).2.take 1) gcWitnessNode.db)) = none ∧
+    errOf (recover Hgc 2 1 (foldBatches (gcRunOld Hgc 2 ⟨1, 1⟩ { n := gcWitnessNode } 0 (fun _ v => v)).2 gcWitnessNode.db)) = some .noPage ∧
+    (gcRun Hgc 2 ⟨1, 1⟩ { n := gcWitnessNode } 0 (fun _ v => v)).2.length = 1 ∧
+    errOf (recover Hgc 2 1 (foldBatches (gcRun Hgc 2 ⟨1, 1⟩ { n := gcWitnessNode } 0 (fun _ v => v)).2 gcWitnessNode.db)) = none := by
+  decide
+
+/-! ## 5. a failed flush (MemCachedStore.persist's error branch, Model/PersistFlush.lean) -/
+
+/-- **failed_flush_loses_nothing**: when the backend refuses the change set, nothing reaches it (no batch, `ps`
+unchanged), the flush is over (`temp = none`), the list of pending writes is literally the same — the writes that
+arrived during the flush on top of the ones that were being flushed — and every read through the cache gives what
+it gave before. -/
+theorem failed_flush_loses_nothing (s : MS) :
+    (mstep s .fail).1.ps = s.ps ∧ (mstep s .fail).2 = none ∧ (mstep s .fail).1.temp = none ∧
+    (mstep s .fail).1.pending = s.pending ∧ ∀ k, (mstep s .fail).1.view k = s.view k := by
+  obtain ⟨h1, h2, h3, h4⟩ := mstep_fail s
+  exact ⟨h1, h2, h4, h3, fun k => by rw [mstep_view]⟩
+
+/-- **flush_after_failure_writes_union**: a flush of `t` fails while `s.mem` has arrived meanwhile; after any
+further writes `w` the next successful flush commits ONE batch holding `t ++ s.mem ++ w` in this order (later
+writes win), and the backend is the old one with exactly these writes applied. -/
+theorem flush_after_failure_writes_union (s : MS) (t w : Writes) (ht : s.temp = some t) (hne : t ≠ []) :
+    mrunFrom s [.fail, .write w, .begin, .commit] =
+      ({ ps := applyWrites (t ++ s.mem ++ w) s.ps, temp := none, mem := [] }, [ofWrites (t ++ s.mem ++ w)]) := by
+  simp [mrunFrom, mstep, ht, hne, List.append_assoc]
+
+/-- non-vacuity: a flush of one write in flight, one write arrived meanwhile, one after the failure. -/
+example : (mrunFrom { ps := Db.empty, temp := some [(Key.curBlock, some (Val.ptr 1))], mem := [(Key.curBlock, some (Val.ptr 2))] }
+    [.fail, .write [(Key.curHeader, some (Val.ptr 3))], .begin, .commit]).1.ps Key.curBlock = some (Val.ptr 2) := by decide
+
+/-- **flush_schedule_refines_stream**: for EVERY schedule of writes, flush starts, commits and failures on a clean
+store: (1) reads see all writes applied in order, whatever failed; (2) the backend is the fold of the committed
+batches; (3) the committed batches, concatenated in commit order, followed by what is still pending, are exactly
+the stream of writes issued — so every batch prefix is a cut of the write stream at a flush start, i.e. a crash
+point of the two-layer node model with its flushes placed at the starts of the successful ones. -/
+theorem flush_schedule_refines_stream (ps : Db) (ops : List MOp) :
+    let r := mrunFrom { ps := ps } ops
+    (∀ k, r.1.view k = applyWrites (writesOf ops) ps k) ∧
+    r.1.ps = foldBatches r.2 ps ∧
+    r.2.flatMap batchWrites ++ r.1.pending = writesOf ops := by
+  intro r
+  obtain ⟨h1, h2⟩ := mrun_stream { ps := ps } ops
+  refine ⟨fun k => ?_, h2, ?_⟩
+  · show (mrunFrom { ps := ps } ops).1.view k = _
+    rw [mrun_view]; simp [MS.view, applyWrites]
+  · simpa [MS.pending] using h1
+
+/-- non-vacuity: two writes, a failed flush with a write in between, then a successful one: one batch. -/
+example : (mrunFrom { ps := Db.empty } [.write [(Key.curBlock, some (Val.ptr 1))], .begin, .write [(Key.curBlock, some (Val.ptr 2))],
+    .fail, .begin, .commit]).2.length = 1 := by decide
+
+/-- **flush_is_node_flush**: with no flush in flight, start + commit of the three-layer store is the `flush` step of
+the node model of sections 1–4 (same backend, same batch, empty cache). -/
+theorem flush_is_node_flush (H : Hist) (B : Nat) (n : Node) (s : MS) (hdb : s.ps = n.db) (ht : s.temp = none) (hm : s.mem = n.cache) :
+    ((mrunFrom s [.begin, .commit]).1.toNode n, (mrunFrom s [.begin, .commit]).2) =
+      ((step H B n .flush).1, (step H B n .flush).2.toList) :=
+  mflush_is_flush H B n s hdb ht hm
+
 /-! ### the stage markers and their order are the code's (regenerated from blockchain.go on every run) -/
 
 theorem stage_constants_tied :
@@ -389,6 +591,13 @@ theorem stage_constants_tied :
     -- the order of the fallthrough switch of resetStateInternal, which `resetFrom` mirrors
     Generated.Stages.resetSwitchOrder = [stNone, stJumpStarted, stBlocksRemoved, stNewItems, stHeadersReset, stTransfersReset] ∧
     Generated.Stages.resetBlocksBatch = 100 * Generated.Stages.headerBatchCount := by
+  decide
+
+/-- the garbage collector's constants and the order of its four passes (tryRunGC's guarded body), which `gcRun`
+mirrors: transfers, MPT (both `gcSel`), untraceable blocks, header-hash pages. -/
+theorem gc_constants_tied :
+    pagesCache = Generated.Stages.pagesCache ∧ Generated.Stages.blockTimesCache = 8 ∧
+    Generated.Stages.gcCallOrder = ["removeOldTransfers", "GC", "removeUntraceableBlocks", "removeOldHeaderHashes"] := by
   decide
 
 /-- the key prefixes the harness' batch abstraction classifies by. -/
